@@ -194,7 +194,6 @@ func VerifC13Interleaved() {
 	verifForceOK = false
 	m := lb.metricsCollector.GetMetrics()
 	verifrt.Assert(bs[0].GetActiveConnections() == 0, "gauge is zero at quiescence")
-	verifrt.Known("C13-stale-gauge-mirror", true)
 	verifrt.Assert(m.BackendMetrics[bs[0].Name].ActiveConnections == 0, "published gauge mirror is zero at quiescence")
 	verifrt.Assert(m.TotalRequests == 2 && m.SuccessfulRequests == 2, "both concurrent requests are counted")
 	return
